@@ -210,8 +210,7 @@ def r3_teardown_sequence(report, repo):
   lib.decision_table(report, rule, es, ['in_teardown'], classify, spec)
 
 
-def r4_stop_phase_executor(report, repo):
-  rule = 'C03-R4'
+def r4_stop_phase_executor(report, repo, rule='C03-R4'):
   report.rule(rule, 'T-DOM/T-ORDER/T-PAIR: _stop_phase_executor: a non-forced '
               'stop is dominated by a successful non-blocking acquire of the '
               'teardown lock; reset_stop() precedes the release; release in '
